@@ -19,7 +19,7 @@ from ..digest import result_digest, obj_digest
 TITLE = 'parameter routes equivalent; reset restores all'
 EXPLORER = 'E1'
 CLAUSES = ['C12.routes_equal', 'C12.override_wins', 'C12.no_global_read', 'C12.unknown_key', 'C12.reset_all', 'C12.reset_named',
-           'C12.sensitive_leaf', 'C12.yaml_route', 'C12.global_route']
+           'C12.sensitive_leaf', 'C12.yaml_route', 'C12.global_route', 'C12.routes_equal_prior']
 RULE = ('ROUTES: one case per deviation (leaf=value from mc/params.py): 6 scenes x {default, per-call, global edit, YAML+set_prms, per-call '
         'under a poisoned global}; TRIPWIRE: one case per scene: every d<=1 configuration run with dynamic.AMPYCLOUD_PRMS swapped for a '
         'mapping that raises on any access after construction; UNKNOWN: unknown keys at depth 1-3 per call and via YAML; RESET: subsets of '
@@ -214,6 +214,32 @@ def run_case(case):
                 if p != a:
                     viol('C12.override_wins', {'deviation': dev, 'scene': sname, 'global_held': poisoned,
                                                'what': 'a per-call run depends on the value the global holds for a key it overrides'})
+                # the same three routes on top of a NON-default prior global (the leaf holds another value beforehand): per-call,
+                # in-place edit and YAML must still agree - in particular for values such as None / null
+                def with_prior(route):
+                    orig2 = env.ORIG_PRMS
+                    pipeline.set_global(poisoned)
+                    try:
+                        if route == 'A':
+                            return run_digest(rows, params.merge(ctx or {}, cfg))
+                        if route == 'B':
+                            pipeline.set_global(cfg)
+                            return run_digest(rows, ctx)
+                        with warnings.catch_warnings():
+                            warnings.simplefilter('ignore')
+                            ampycloud.set_prms(yp)
+                        return run_digest(rows, ctx)
+                    finally:
+                        ampycloud.reset_prms()
+                do_prior = case.get('tier') != 'quick' or sname in ('merge+split', '2c-near', 'overlap')
+                pa, pb, pc = (with_prior('A'), with_prior('B'), with_prior('C')) if do_prior else (None, None, None)
+                if do_prior:
+                    res['n'] += 3
+                    hit('C12.routes_equal_prior')
+                if not (pa == pb == pc):
+                    viol('C12.routes_equal', {'deviation': dev, 'scene': sname, 'prior_global_held': poisoned,
+                                              'equal': {'per_call=global_edit': pa == pb, 'per_call=yaml': pa == pc},
+                                              'what': 'the three routes disagree when the global held another value beforehand'})
                 # and the reset brought everything back
                 after = run_digest(rows, ctx); res['n'] += 1
                 hit('C12.reset_all')
